@@ -5,16 +5,25 @@ import Juniper.Proofs.HeapIter
 The iterator model (`Model.Heap.iterNext`) captures `gen` and the slice at its first `Next`
 (generated facts `iterCapturesGen`, `iterCapturesSlice`, `iterInitGen = -1`) and panics when the
 heap's `gen` differs (`iterModified`, `iterPanics`). The presence *and position* of `h.gen++` in
-`Push`, `Pop`, `RemoveAt` and `UpdateAt` are regenerated from `heap.go` on every run and enter the
-theorems as the hypothesis `genFacts = true`, discharged by `decide`: before the repair of D14
-(`UpdateAt` without `h.gen++`) that hypothesis is `false` and none of the theorems below type-checks.
+`Push`, `Pop`, `RemoveAt` and `UpdateAt` (`genFacts`), the iterator facts (`iterFacts`), "the body of
+every `xheap.Heap` wrapper method is exactly the forwarding statement" (`xFacts`) and "the body of
+`PriorityQueue.Iterate` is exactly `return iterator.Map(h.inner.Iterate(), func(kp) K { return kp.K })`"
+(`pqIterateMapsInnerToKey`) are regenerated from `heap.go` / `xheap.go` on every run. **No theorem
+below takes such a fact as a hypothesis**: each discharges the facts it needs by `decide` *inside* its
+proof, so its statement is unconditional and flipping a fact (e.g. `pushBumpsGen`, or before the
+repair of D14 `updateAtBumpsGen`) makes the property theorems themselves fail.
 
-A history is a list of `Ev`: `Next` calls interleaved with calls on the container; `run` returns the
-results of the `Next` calls up to and including the first `panic` / `done`; `snapshot` is the contents
-at the first `Next` (DESIGN §8a).
+A history is a list of `Ev` (heap level), `XEv` (the `xheap.Heap` API) or `PQEv` (the
+`PriorityQueue` API): `Next` calls interleaved with calls on the container. `run` / `xrun` / `pqRun`
+return what **every** `Next` call of the history returns — also the calls after a panic and after
+exhaustion; `snapshot` is the contents at the first `Next` (DESIGN §8a). `SnapshotOrPanic` is the
+specification shared with the deque half (`Spec/Deque.lean`): every item is the next element of the
+snapshot, "exhausted" only after the whole snapshot (and then for ever), otherwise a panic, after which
+there are only panics.
 -/
 namespace Juniper.Props.C15Heap
 open Juniper.Gen.Heap Juniper.Model.Heap Juniper.Proofs.Heap Juniper.Proofs.HeapIter
+open Juniper.Spec.Deque (Obs SnapshotOrPanic)
 
 variable {α : Type}
 
@@ -26,139 +35,164 @@ theorem genFacts_hold : genFacts = true := by decide
 mismatch branch panics. -/
 theorem iterFacts_hold : iterFacts = true := by decide
 
+/-- Every `xheap.Heap` wrapper method consists of exactly its forwarding statement. -/
+theorem xFacts_hold : xFacts = true := by decide
+
 /-- A fresh iterator captures the heap's generation and length at its first `Next`; later `Next`s
 on the unchanged heap keep them. -/
-theorem heapIter_first_next_captures (h : Heap α) (hif : iterFacts = true := by decide) :
+theorem heapIter_first_next_captures (h : Heap α) :
     (iterNext h iterate).1.gen = h.gen ∧ (iterNext h iterate).1.len = h.a.length := by
-  rw [iterNext_fresh hif]
+  rw [iterNext_fresh (by decide)]
   simp only [iterStep]
   split <;> simp
 
 /-- **On an unchanged heap the iterator yields exactly the contents, every element once, and then
-reports exhaustion** (`len + 1` calls to `Next`; the order is the array order). -/
-theorem heapIter_unchanged_yields_each_once (less : α → α → Bool) (h : Heap α) (h0 : 0 ≤ h.gen)
-    (hgf : genFacts = true := by decide) (hif : iterFacts = true := by decide) :
-    run less h iterate (List.replicate (h.a.length + 1) Ev.next) =
-      h.a.map (fun x => IterOut.item (some x)) ++ [IterOut.done] := by
-  obtain ⟨k, tl, fin, hk, ht, hfin, hrun⟩ := run_fresh less hgf hif (List.replicate (h.a.length + 1) Ev.next) h h0
-  have hsnap : snapshot less h (List.replicate (h.a.length + 1) Ev.next) = h.a := by
-    simp [List.replicate_succ, snapshot]
-  rw [hsnap] at hk hfin hrun
-  -- with only `Next` events the run cannot stop early: it has `len + 1` results unless it ended
-  have hlen : ∀ (n : Nat) (it : Iter), it.gen = h.gen → it.len = h.a.length → it.pos ≤ it.len →
-      it.pos + n = h.a.length + 1 →
-      (run less h it (List.replicate n Ev.next)).length = n ∧
-      (run less h it (List.replicate n Ev.next)).getLast? = some IterOut.done := by
-    intro n
-    induction n with
-    | zero => intro it _ _ _ hp; omega
-    | succ n ih =>
-      intro it hg hl hle hp
-      have hs : it.gen ≠ -1 := by omega
-      simp only [List.replicate_succ, run]
-      rw [iterNext_started hs hif, if_pos hg]
-      simp only [iterStep]
-      by_cases hpos : it.pos < it.len
-      · simp only [hpos, if_true]
-        obtain ⟨l1, l2⟩ := ih { it with pos := it.pos + 1 } hg hl (by simp; omega) (by simp; omega)
-        refine ⟨by simp [l1], ?_⟩
-        cases hL : run less h { it with pos := it.pos + 1 } (List.replicate n Ev.next) with
-        | nil => rw [hL] at l2; simp at l2
-        | cons b l => rw [List.getLast?_cons_cons, ← hL]; exact l2
-      · have : n = 0 := by omega
-        subst this
-        simp [hpos]
-  have first : run less h iterate (List.replicate (h.a.length + 1) Ev.next) =
-      run less h { gen := h.gen, pos := 0, len := h.a.length } (List.replicate (h.a.length + 1) Ev.next) := by
-    simp only [List.replicate_succ, run]
-    rw [iterNext_fresh hif, iterNext_started (by simp; omega) hif]; simp
-  obtain ⟨l1, l2⟩ := hlen (h.a.length + 1) { gen := h.gen, pos := 0, len := h.a.length } rfl rfl (by simp) (by simp)
-  rw [← first] at l1 l2
-  rw [hrun] at l1 l2 ⊢
-  cases ht with
-  | open_ => simp at l1; omega
-  | panic => simp at l2
-  | done =>
-    have := hfin rfl
-    subst this; simp
+reports exhaustion for ever**: the first `n` calls to `Next` return the first `n` elements (array
+order; all of them when `n ≥ Len`), every further call returns "exhausted"; nothing panics. -/
+theorem heapIter_unchanged_yields_each_once (less : α → α → Bool) (h : Heap α) (h0 : 0 ≤ h.gen) (n : Nat) :
+    run less h iterate (List.replicate n Ev.next) =
+      (h.a.take n).map (fun x => Obs.item (some x)) ++ List.replicate (n - h.a.length) Obs.done :=
+  run_nexts_fresh less (by decide) h h0 n
 
-example : run ltN ⟨[1, 3, 2], 5⟩ iterate [.next, .next, .next, .next] =
-    [.item (some 1), .item (some 3), .item (some 2), .done] := by decide
+example : run ltN ⟨[1, 3, 2], 5⟩ iterate [.next, .next, .next, .next, .next] =
+    [.item (some 1), .item (some 3), .item (some 2), .done, .done] := by decide
 
-/-- **Snapshot or panic.** For every heap, every history of `Next` calls interleaved with `Push`,
-`Pop` (including the pop that empties the heap), `RemoveAt`, `UpdateAt` (i.e. `PriorityQueue.Update`
-of an existing key to a lower / higher / equal priority), `Grow`, `Shrink` at any iterator position:
-what the iterator returns before it stops is a prefix of the snapshot taken at its first `Next`, and
-it reports exhaustion only after the whole snapshot — otherwise it panics (or the history ended). -/
-theorem heapIter_snapshot_or_panic (less : α → α → Bool) (h : Heap α) (h0 : 0 ≤ h.gen) (evs : List (Ev α))
-    (hgf : genFacts = true := by decide) (hif : iterFacts = true := by decide) :
-    ∃ k tl fin, k ≤ (snapshot less h evs).length ∧ Tail α tl fin ∧
-      (fin = true → k = (snapshot less h evs).length) ∧
-      run less h iterate evs =
-        ((snapshot less h evs).take k).map (fun x => IterOut.item (some x)) ++ tl :=
-  run_fresh less hgf hif evs h h0
+/-- **Snapshot or panic, the whole history.** For every heap, every history of `Next` calls
+interleaved with `Push`, `Pop` (including the pop that empties the heap), `RemoveAt`, `UpdateAt`
+(i.e. `PriorityQueue.Update` of an existing key to a lower / higher / equal priority), `Grow`, `Shrink`
+at any iterator position — observed to its end, not only to the first panic: what the iterator returns
+is a prefix of the snapshot taken at its first `Next`, it reports exhaustion only after the whole
+snapshot (and then keeps reporting it while nothing changes), and otherwise it panics and keeps
+panicking. -/
+theorem heapIter_snapshot_or_panic (less : α → α → Bool) (h : Heap α) (h0 : 0 ≤ h.gen) (evs : List (Ev α)) :
+    SnapshotOrPanic (snapshot less h evs) (run less h iterate evs) :=
+  run_fresh less (by decide) (by decide) evs h h0
+
+/-- `run` drops nothing: one observation per `Next` call of the history. -/
+theorem heapIter_run_total (less : α → α → Bool) (h : Heap α) (it : Iter) (evs : List (Ev α)) :
+    (run less h it evs).length = (evs.filter Ev.isNext).length := run_length less evs h it
 
 -- D14's scenario: Update of an existing key (UpdateAt) mid-iteration now panics instead of
--- yielding an element twice
-example : run ltN ⟨[0, 0], 2⟩ iterate [.next, .updateAt 1 0, .next] = [.item (some 0), .panic] := by decide
+-- yielding an element twice — and keeps panicking
+example : run ltN ⟨[0, 0], 2⟩ iterate [.next, .updateAt 1 0, .next, .next] = [.item (some 0), .panic, .panic] := by
+  decide
 -- the pop that empties the heap
 example : run ltN ⟨[7], 0⟩ iterate [.next, .pop, .next] = [.item (some 7), .panic] := by decide
 -- Grow keeps the contents: iteration continues correctly
 example : run ltN ⟨[1, 2], 0⟩ iterate [.next, .grow, .next, .next] = [.item (some 1), .item (some 2), .done] := by
   decide
-
-/-- a call that adds, removes or replaces an element (and does not itself panic) -/
-def Mutates (h : Heap α) : Ev α → Prop
-  | .push _ => True
-  | .pop => h.a ≠ []
-  | .removeAt i => i < h.a.length
-  | .updateAt i _ => i < h.a.length
-  | _ => False
+-- exhausted stays exhausted; exhausted, then Push, then Next: panic (and again)
+example : run ltN ⟨[1], 0⟩ iterate [.next, .next, .next, .push 4, .next, .next] =
+    [.item (some 1), .done, .done, .panic, .panic] := by decide
 
 /-- **Once iteration is under way, adding or removing an element makes the iterator's next call
 panic** (so does `UpdateAt`, which replaces one). "Under way": the iterator's captured generation is
 the heap's, which is what `heapIter_first_next_captures` establishes and `Next` on the unchanged heap
-preserves. -/
+preserves — at every position, the exhausted iterator included. -/
 theorem heapIter_add_remove_panics (less : α → α → Bool) (h : Heap α) (it : Iter) (hit : it.gen = h.gen)
-    (h0 : 0 ≤ h.gen) (e : Ev α) (he : Mutates h e)
-    (hgf : genFacts = true := by decide) (hif : iterFacts = true := by decide) :
+    (h0 : 0 ≤ h.gen) (e : Ev α) (he : Mutates h e) :
     iterNext (applyEv less h e) it = (it, IterOut.panic) := by
   have hs : it.gen ≠ -1 := by omega
-  have hgen : (applyEv less h e).gen = h.gen + 1 := by
-    have hgf' := hgf
-    simp only [genFacts, Bool.and_eq_true] at hgf'
-    obtain ⟨⟨⟨h1, h2⟩, h3⟩, h4⟩ := hgf'
-    cases e with
-    | next => cases he
-    | grow => cases he
-    | shrink => cases he
-    | push x => simp only [applyEv]; exact push_gen less h x h1
-    | pop =>
-      simp only [applyEv]
-      cases hp : pop less h with
-      | none => exact absurd ((pop_none_iff less h).mp hp) he
-      | some r => obtain ⟨h', x, n⟩ := r; obtain ⟨_, _, _, _, hg, _⟩ := pop_shape hp h2; exact hg
-    | removeAt i =>
-      simp only [applyEv]
-      cases hp : removeAt less h i with
-      | none => exact absurd he ((removeAt_none_iff less h i).mp hp)
-      | some r => obtain ⟨h', n⟩ := r; obtain ⟨_, _, _, hg, _⟩ := removeAt_shape hp h3; exact hg
-    | updateAt i x =>
-      simp only [applyEv]
-      cases hp : updateAt less h i x with
-      | none => exact absurd he ((updateAt_none_iff less h i x).mp hp)
-      | some r =>
-        obtain ⟨h', n⟩ := r; obtain ⟨_, hg, _, _⟩ := updateAt_shape hp
-        simp only [hg, h4, bump, if_true]
-  rw [iterNext_started hs hif, if_neg (by omega)]
+  have hgen := applyEv_gen_mutates less h e he (by decide)
+  rw [iterNext_started hs (by decide), if_neg (by omega)]
 
 example : Mutates (⟨[3, 4], 0⟩ : Heap Nat) (.removeAt 1) := by simp [Mutates]
 
-/-! ## PriorityQueue.Iterate = the heap iterator mapped to keys -/
+/-- **After the panic the iterator keeps panicking**, whatever happens next: once an element was
+added or removed while iteration was under way, every later `Next` of any further history panics. -/
+theorem heapIter_keeps_panicking (less : α → α → Bool) (h : Heap α) (it : Iter) (hit : it.gen = h.gen)
+    (h0 : 0 ≤ h.gen) (e : Ev α) (he : Mutates h e) (evs : List (Ev α)) :
+    ∀ o ∈ run less (applyEv less h e) it evs, o = Obs.panic := by
+  have hgen := applyEv_gen_mutates less h e he (by decide)
+  exact stale_run less (by decide) (by decide) evs _ it (by omega) (by omega)
+
+/-- **Any number `n + 1` of `Next` calls on the unchanged heap — in particular more than `Len`, i.e.
+an exhausted iterator — then a call that adds or removes an element, then any history**: the first
+`n + 1` results are the elements in order followed by "exhausted", and every `Next` after the
+mutation panics (one panic per `Next`). -/
+theorem heapIter_exhausted_then_mutation_panics (less : α → α → Bool) (h : Heap α) (h0 : 0 ≤ h.gen)
+    (n : Nat) (e : Ev α) (he : Mutates h e) (evs : List (Ev α)) :
+    ∃ obs, run less h iterate (List.replicate (n + 1) Ev.next ++ e :: evs) =
+        ((h.a.take (n + 1)).map (fun x => Obs.item (some x)) ++
+          List.replicate (n + 1 - h.a.length) Obs.done) ++ obs ∧
+      (∀ o ∈ obs, o = Obs.panic) ∧ obs.length = (evs.filter Ev.isNext).length := by
+  refine ⟨run less (applyEv less h e) (nextsIt h (n + 1) iterate) evs, ?_, ?_, run_length less evs _ _⟩
+  · rw [run_nexts_append, run_nexts_fresh less (by decide) h h0, run_op less h _ he.not_next]
+  · exact heapIter_keeps_panicking less h _ (nextsIt_fresh (by decide) h h0 n) h0 e he evs
+
+example : run ltN ⟨[1, 2], 0⟩ iterate (List.replicate 4 Ev.next ++ .pop :: [.next, .grow, .next]) =
+    [.item (some 1), .item (some 2), .done, .done, .panic, .panic] := by decide
+
+/-! ## `xheap.Heap` (the exported wrapper): `Iterate`, `Push`, `Pop`, `Grow`, `Shrink` forward -/
+
+/-- **`xheap.Heap.Iterate` is snapshot-or-panic** for every history of the wrapper's own methods
+(`Push`, `Pop`, `Grow`, `Shrink`) interleaved with `Next`: the wrapper methods are *defined* by the
+generated facts "the body is exactly the forwarding statement", so a wrapper that does anything else
+(extra statement, guard, different callee) breaks this theorem. -/
+theorem xheapIter_snapshot_or_panic (less : α → α → Bool) (h : Heap α) (h0 : 0 ≤ h.gen) (evs : List (XEv α)) :
+    SnapshotOrPanic (xsnapshot less h evs) (xrun less h iterate evs) := by
+  rw [xrun_eq (by decide), xsnapshot_eq (by decide)]
+  exact run_fresh less (by decide) (by decide) _ h h0
+
+/-- On an unchanged `xheap.Heap` its iterator yields every element once, then "exhausted" for ever. -/
+theorem xheapIter_unchanged_yields_each_once (less : α → α → Bool) (h : Heap α) (h0 : 0 ≤ h.gen) (n : Nat) :
+    xrun less h iterate (List.replicate n XEv.next) =
+      (h.a.take n).map (fun x => Obs.item (some x)) ++ List.replicate (n - h.a.length) Obs.done := by
+  rw [xrun_eq (by decide)]
+  have : (List.replicate n (XEv.next : XEv α)).map XEv.toEv = List.replicate n Ev.next := by
+    simp [XEv.toEv]
+  rw [this]
+  exact run_nexts_fresh less (by decide) h h0 n
+
+/-- `Push` / a `Pop` of a non-empty `xheap.Heap` while iteration is under way: the next `Next` of the
+wrapper's iterator panics. -/
+theorem xheapIter_add_remove_panics (less : α → α → Bool) (h : Heap α) (it : Iter) (hit : it.gen = h.gen)
+    (h0 : 0 ≤ h.gen) (e : XEv α) (he : (∃ x, e = .push x) ∨ (e = .pop ∧ h.a ≠ [])) :
+    X.iterNext (applyX less h e) it = (it, IterOut.panic) := by
+  rw [xiterNext_eq (by decide), applyX_eq (by decide)]
+  apply heapIter_add_remove_panics less h it hit h0
+  rcases he with ⟨x, rfl⟩ | ⟨rfl, hne⟩
+  · trivial
+  · exact hne
+
+example : xrun ltN ⟨[1, 3, 2], 0⟩ iterate [.next, .push 0, .next, .next] = [.item (some 1), .panic, .panic] ∧
+    xrun ltN ⟨[1, 3, 2], 0⟩ iterate [.next, .grow, .next, .next, .next, .next] =
+      [.item (some 1), .item (some 3), .item (some 2), .done, .done] := by decide
+
+/-! ## PriorityQueue.Iterate = the inner heap's iterator mapped to keys -/
 
 section PQ
 open Juniper.Model.PQ Juniper.Proofs.PQ
 variable {K P : Type} [DecidableEq K]
+
+/-- **Unchanged queue.** `PriorityQueue.Iterate` on a queue that is not touched yields each key
+exactly once — the keys of the array in array order, which are pairwise distinct (`IndexInv`) — and
+then reports exhaustion for ever: the first `n` calls return the first `n` keys, every further call
+"exhausted"; nothing panics. -/
+theorem pqIter_unchanged_yields_each_key_once (less : P → P → Bool) (q : PQ K P) (hq : IndexInv q)
+    (h0 : 0 ≤ q.h.gen) (n : Nat) :
+    pqRun less q iterate (List.replicate n PQEv.next) =
+        ((keysOf q.h.a).take n).map (fun k => Obs.item (some k)) ++
+          List.replicate (n - (keysOf q.h.a).length) Obs.done ∧
+      (keysOf q.h.a).Nodup := by
+  refine ⟨?_, hq.1⟩
+  rw [pqRun_nexts (by decide), run_nexts_fresh (lessKP less) (by decide) q.h h0 n]
+  simp only [keysOf, List.map_append, List.map_take, List.map_map, List.map_replicate, List.length_map, mapObs]
+  rfl
+
+/-- **Snapshot or panic for `PriorityQueue.Iterate`, the whole history.** For every queue and every
+history of `Update` (existing key to a lower / higher / equal priority, or a new key), `Remove`
+(present or absent key), `Pop` (also the one that empties the queue, also on the empty queue) and
+`Grow` interleaved with `Next` calls at any position: the keys the iterator returns are a prefix of
+the keys held at its first `Next`, it reports exhaustion only after all of them, otherwise it panics
+and keeps panicking. (`Remove` of an absent key and a refused call leave the state unchanged, `Grow`
+the contents: the iteration may continue.) -/
+theorem pqIter_snapshot_or_panic (less : P → P → Bool) (q : PQ K P) (h0 : 0 ≤ q.h.gen)
+    (evs : List (PQEv K P)) :
+    SnapshotOrPanic (pqSnapshot less q evs) (pqRun less q iterate evs) := by
+  obtain ⟨hevs, h1, h2⟩ := pqRun_transport (by decide) less evs q iterate
+  rw [h1, h2]
+  exact snapshotOrPanic_map _ _ _ (run_fresh (lessKP less) (by decide) (by decide) hevs q.h h0)
 
 /-- Every successful `Update` (new key: an element is added; existing key with a lower, higher or
 equal priority: the array is reordered in place — D14), `Remove` of a present key and `Pop` makes the
@@ -166,39 +200,23 @@ next call of an iterator under way panic. -/
 theorem pqIter_mutation_panics (less : P → P → Bool) {q q' : PQ K P} (hq : IndexInv q) (it : Iter)
     (hit : it.gen = q.h.gen) (h0 : 0 ≤ q.h.gen)
     (hop : (∃ k p, update less q k p = some q') ∨ (∃ k p0, Holds q k p0 ∧ remove less q k = some q') ∨
-      (∃ k, Juniper.Model.PQ.pop less q = some (q', k)))
-    (hgf : genFacts = true := by decide) (hif : iterFacts = true := by decide) :
+      (∃ k, Juniper.Model.PQ.pop less q = some (q', k))) :
     Juniper.Model.PQ.iterNext q' it = (it, IterOut.panic) := by
-  have key : ∃ e, Mutates q.h e ∧ q'.h = applyEv (lessKP less) q.h e := by
-    rcases hop with ⟨k, p, hu⟩ | ⟨k, p0, hk, hu⟩ | ⟨k, hu⟩
-    · by_cases hk : ∃ p0, Holds q k p0
-      · obtain ⟨p0, hp0⟩ := hk
-        obtain ⟨q'', he, _, _, i, y, notes, hi, hua⟩ := update_existing (less := less) hq p hp0
-        rw [hu] at he; cases he
-        have hil : i < q.h.a.length := by
-          rcases Nat.lt_or_ge i q.h.a.length with h | h
-          · exact h
-          · rw [List.getElem?_eq_none h] at hi; cases hi
-        exact ⟨.updateAt i (k, p), hil, by simp [applyEv, hua]⟩
-      · obtain ⟨q'', he, _, _, hpush⟩ := update_new (less := less) hq p (fun p0 h => hk ⟨p0, h⟩)
-        rw [hu] at he; cases he
-        exact ⟨.push (k, p), trivial, by simp [applyEv, hpush]⟩
-    · obtain ⟨q'', he, _, _, i, notes, hi, hua⟩ := remove_present (less := less) hq hk
-      rw [hu] at he; cases he
-      have hil : i < q.h.a.length := by
-        rcases Nat.lt_or_ge i q.h.a.length with h | h
-        · exact h
-        · rw [List.getElem?_eq_none h] at hi; cases hi
-      exact ⟨.removeAt i, hil, by simp [applyEv, hua]⟩
-    · have hne : q.h.a ≠ [] := by
-        intro e
-        rw [pop_eq, (pop_none_iff _ _).mpr e] at hu; cases hu
-      obtain ⟨q'', k', p0, notes, he, _, _, _, hua⟩ := pop_nonempty (less := less) hq hne
-      rw [hu] at he; cases he
-      exact ⟨.pop, hne, by simp [applyEv, hua]⟩
-  obtain ⟨e, hm, hq'⟩ := key
-  have := heapIter_add_remove_panics (lessKP less) q.h it hit h0 e hm hgf hif
-  simp only [Juniper.Model.PQ.iterNext, hq', this]
+  obtain ⟨e, hm, hq'⟩ := pq_mutation_is_heap_mutation less hq hop
+  have hgen := applyEv_gen_mutates (lessKP less) q.h e hm (by decide)
+  rw [pqIterNext_eq (by decide), hq', iterNext_started (by omega) (by decide), if_neg (by omega)]
+  rfl
+
+-- `new` de-duplicates to 3 keys; unchanged drain; equal-priority Update, Remove, Pop → panic (kept);
+-- Remove of an absent key and Grow → iteration continues
+example :
+    let q := Juniper.Model.PQ.new ltN [((10 : Nat), (5 : Nat)), (20, 3), (30, 4), (20, 9)]
+    pqRun ltN q iterate (List.replicate 5 .next) = [.item (some 20), .item (some 10), .item (some 30), .done, .done] ∧
+    pqRun ltN q iterate [.next, .update 10 5, .next, .next] = [.item (some 20), .panic, .panic] ∧
+    pqRun ltN q iterate [.next, .remove 30, .next] = [.item (some 20), .panic] ∧
+    pqRun ltN q iterate [.next, .pop, .next] = [.item (some 20), .panic] ∧
+    pqRun ltN q iterate [.next, .remove 77, .grow, .next] = [.item (some 20), .item (some 10)] := by
+  decide
 
 end PQ
 
